@@ -4,7 +4,8 @@ from contracts import tracker as T
 
 UNITS = [G.InGrid(), G.AtSea(), G.OnLand(), T.Update(""), T.Update("EF"), T.Update("RK2"), T.Update("RK4")]
 LEMMAS = []
-NATIVE = [dict(name="run-time contract of the tracking step on random coastlines (real Tracker, real ROMS Grid)", harness="tracker_step_bounded", kind="bounded")]
+NATIVE = [dict(name="run-time contract of the tracking step on random coastlines (real Tracker, real ROMS Grid)", harness="tracker_step_bounded", kind="bounded"),
+          dict(name="encoder validation: the interpreter in concrete mode vs the real numpy/numba functions", harness="validate_encoder", kind="validation", prepare="pyvc.validate:run_validation")]
 LEVEL = "proof"
 LEVEL_TEXT = ("Deductive proof per particle, for every mask, velocity (uninterpreted, any magnitude), displacement incl. diffusion, and all three schemes: Tracker.update equals the "
               "specified step (kill when the move leaves the valid region, keep position when inactive or moving onto land), the state invariant 'every particle in the valid region "
